@@ -2,12 +2,12 @@
 # Offline build of the verification machinery (MANIFEST.setup_cmd).
 set -e
 cd "$(dirname "$0")"
+V="$(pwd)"
 export CARGO_NET_OFFLINE=true
 ln -sfn "${VERIF_REPO:-/repo}" repo-link
 mkdir -p target/logs evidence
 ( cd harness && cargo build --release -q )
 ( cd harness && cargo build --profile fast -q )
-( cd repo-link && CARGO_TARGET_DIR="$(pwd -P)/../verif/target/jaqbin" true )
-( cd repo-link && CARGO_TARGET_DIR="$OLDPWD/target/jaqbin" cargo build -q -p jaq --offline )
-[ -f tools/sysmon.c ] && gcc -O2 -o target/sysmon tools/sysmon.c || true
+( cd repo-link && CARGO_TARGET_DIR="$V/target/jaqbin" cargo build -q -p jaq --offline )
+if [ -f tools/sysmon.c ]; then gcc -O2 -o target/sysmon tools/sysmon.c; fi
 echo setup ok
